@@ -303,6 +303,10 @@ def r05_mode_writer(ctx):
             elif isinstance(n, ast.Call) and isinstance(n.func, ast.Name) \
                     and n.func.id in ("setattr", "delattr") and n.args:
                 ts = ctx.types_in(f, n.args[0])
+                if f is sm and isinstance(n.args[0], ast.Name) and \
+                        n.args[0].id == sm.self_name:
+                    n_stores += 1       # a store of set_mode itself
+                    continue
                 if "Calendar" in ts or "class:Calendar" in ts:
                     rep.violation(
                         rule, ctx.fkey(f, n), f.loc(n),
